@@ -193,3 +193,66 @@ SCENARIOS = [
              + F("onnxscript/nn/_parameter.py", "Parameter.__init__", "Parameter._realize"),
              kind="evaluation", trusted=["an independent walk of _parameters / _modules (registration order) as the reference for 'the dotted module path'"]),
 ]
+
+
+def s_builder_graph_io(_ctx):
+    """GraphBuilder.input / initializer / add_output / subgraph on the REAL builder (finite family): inputs are appended in the order given and an
+    input with a default becomes an initializer of ITS graph; initializer() registers the tensor in the ROOT graph under the (module-qualified)
+    name — also when called from a subgraph body —; add_output appends in order and renames only when a name is given; a subgraph body sees
+    the inputs it declared, in order, and its literals become initializers of the root graph (an inner scope may read outer initializers)."""
+    import numpy as np
+    import onnx_ir as ir
+    from contracts.c17_opsets import Agg
+    from onnxscript._internal import builder
+    agg = Agg()
+    CLB = "C18: 'the traced graph computes what the Python code computes ... all value and node names are unique', initializers in the root graph"
+    g = ir.Graph([], [], nodes=[], opset_imports={"": 18}, name="g")
+    gb = builder.GraphBuilder(g)
+    a = gb.input("a", ir.DataType.FLOAT, [2])
+    d = gb.input("d", const_value=ir.tensor(np.array([1.0, 2.0], np.float32), name="d"))
+    b = gb.input("b", ir.DataType.INT64, ["N"])
+    agg.ob("C18.builder.input.appended_in_order_and_a_default_is_an_initializer_of_its_graph",
+           [v.name for v in g.inputs] == ["a", "d", "b"] and list(g.inputs) == [a, d, b] and list(g.initializers) == ["d"] and g.initializers["d"] is d
+           and a.dtype == ir.DataType.FLOAT and b.dtype == ir.DataType.INT64 and list(a.shape) == [2], f"inputs {[v.name for v in g.inputs]}, initializers {list(g.initializers)}", CLB)
+    w = gb.initializer(ir.tensor(np.array([3.0], np.float32), name="w"))
+    gb.push_module("blk", "Block")
+    w2 = gb.initializer(ir.tensor(np.array([4.0], np.float32), name="w"))
+    w3 = gb.initializer(ir.tensor(np.array([5.0], np.float32), name="raw"), qualify=False)
+    gb.pop_module()
+    agg.ob("C18.builder.initializer.registered_in_the_root_graph_under_the_qualified_name",
+           w.name == "w" and w2.name == "blk.w" and w3.name == "raw" and all(g.initializers.get(v.name) is v for v in (w, w2, w3))
+           and float(w2.const_value.numpy()[0]) == 4.0, f"{[w.name, w2.name, w3.name]} in {list(g.initializers)}", CLB)
+    seen = {}
+
+    def body(op, x, y):
+        seen["inputs"] = (x, y)
+        seen["init"] = op.builder.initializer(ir.tensor(np.array([7.0], np.float32), name="inner_w"))
+        return op.Add(op.Mul(x, 2.0), y)
+    xi = ir.Value(name="x_in", type=ir.TensorType(ir.DataType.FLOAT), shape=ir.Shape([2]))
+    yi = ir.Value(name="y_in", type=ir.TensorType(ir.DataType.FLOAT), shape=ir.Shape([2]))
+    yo = ir.Value(name="sum", type=ir.TensorType(ir.DataType.FLOAT), shape=ir.Shape([2]))
+    sub = gb.subgraph(body, [xi, yi], [yo], name="body")
+    lits = [v for v in g.initializers.values() if v.const_value is not None and v.const_value.numpy().tolist() in (2.0, [2.0])]
+    agg.ob("C18.builder.subgraph.declared_inputs_in_order_and_literals_in_the_root_graph",
+           [v.name for v in sub.inputs] == ["x_in", "y_in"] and seen.get("inputs") == (sub.inputs[0], sub.inputs[1]) and len(sub.outputs) == 1
+           and [n.op_type for n in sub] == ["Mul", "Add"] and not list(sub.initializers) and g.initializers.get(seen["init"].name) is seen["init"] and len(lits) == 1,
+           f"subgraph inputs {[v.name for v in sub.inputs]}, nodes {[n.op_type for n in sub]}, subgraph initializers {list(sub.initializers)}, root {list(g.initializers)}", CLB)
+    agg.ob("C18.builder.subgraph.output_carries_the_declared_name", sub.outputs[0].name == "sum" and sub.outputs[0].producer() is list(sub)[-1], sub.outputs[0].name, CLB)
+    o1 = gb.op.Add(a, a)
+    n1 = o1.name
+    gb.add_output(o1, None)
+    o2 = gb.op.Relu(a)
+    gb.add_output(o2, "result")
+    agg.ob("C18.builder.add_output.appended_in_order_renamed_only_when_a_name_is_given", list(g.outputs) == [o1, o2] and o1.name == n1 and o2.name == "result",
+           f"{[v.name for v in g.outputs]}", CLB)
+    vals = {id(v): v for v in [v for n in g for v in n.outputs] + [v for n in sub for v in n.outputs] + list(g.inputs) + list(sub.inputs) + list(g.initializers.values())}
+    names = [v.name for v in vals.values()]
+    nn_ = [n.name for n in g] + [n.name for n in sub]
+    agg.ob("C18.builder.names_are_unique_across_the_graph_and_its_subgraph[one subgraph, distinct operators]", len(set(names)) == len(names) and len(set(nn_)) == len(nn_),
+           f"values {sorted(x for x in names if names.count(x) > 1)}, nodes {sorted(x for x in nn_ if nn_.count(x) > 1)}", CLB)
+    return {"obligations": agg.obs, "paths": 6, "covered": ["builder_io=1"], "notes": [], "functions": []}
+
+
+SCENARIOS.append(Scenario("C18.builder.graph_io", s_builder_graph_io,
+                          F("onnxscript/_internal/builder.py", "GraphBuilder.input", "GraphBuilder.initializer", "GraphBuilder.add_output", "GraphBuilder.subgraph", "build_graph"),
+                          kind="evaluation"))
